@@ -166,6 +166,11 @@ def main():
         det = chk.get("detected")
         rule = (chk.get("rules_fired") or ["-"])[0].replace("rule: ", "")[:90]
         also = ", ".join(meta.get("also_caught_by", []))
+        extra_path = os.path.join(VERIF, "seeded", sid, "note.json")
+        if os.path.exists(extra_path):
+            # hand-recorded additions that a re-run of this tool must not lose (e.g. "caught by the thorough tier only")
+            note = json.load(open(extra_path))
+            also = (also + "; " if also else "") + note.get("note", "")
         allrows.append("| %s | %s | %s | %s | `%s` |%s" % (sid, (meta.get("summary") or "")[:110].replace("|", "/").replace("\n", " "), "yes" if conf else ("?" if conf is None else "NO"), "caught" if det else "MISSED (exit %s)" % chk.get("exit"), rule.replace("|", "/"), (" " + also) if also else ""))
     with open(os.path.join(VERIF, "seeded", "MATRIX.md"), "w") as f:
         f.write("| seeded change | what was changed | confirmed (compiles, 74 tests pass, demo fails only with it) | quick check of its property | first rule that fired |\n|---|---|---|---|---|\n")
